@@ -63,7 +63,7 @@ def main(argv=None):
         seed = int(os.environ.get('VERIF_SEED') or 0)
     except ValueError:
         seed = 0
-    if a.prop == 'selftest':
+    if a.prop in ('selftest', 'corpus'):
         from . import selftest
         return selftest.main(a)
     if a.prop == 'all':
